@@ -31,11 +31,11 @@ type HTTPScript struct {
 func genHTTP(rt *rapid.T) HTTPScript {
 	var s HTTPScript
 	s.JSON = rapid.Bool().Draw(rt, "json")
-	s.Spell = rapid.SampledFrom([]int{0, 0, 0, 1, 2, 3, 4}).Draw(rt, "spell")
+	s.Spell = rapid.SampledFrom([]int{0, 0, 0, 1, 2, 3, 4, 5}).Draw(rt, "spell")
 	n := rapid.IntRange(1, 8).Draw(rt, "n")
 	for i := 0; i < n; i++ {
 		m := Msg{Method: rapid.SampledFrom([]string{"ping", "server/discover", "tools/list", "tools/call", "prompts/list", "resources/list", "logging/setLevel", "resources/subscribe", "resources/unsubscribe", "resources/read", "prompts/get", "initialize"}).Draw(rt, "method")}
-		m.Meta = rapid.SampledFrom([]string{"full", "full", "noinfo", "nocaps", "badcaps", "badinfo", "newer"}).Draw(rt, "meta")
+		m.Meta = rapid.SampledFrom([]string{"full", "full", "noinfo", "nocaps", "nullcaps", "nullinfo", "badcaps", "badinfo", "newer"}).Draw(rt, "meta")
 		if m.Method == "initialize" {
 			m.Init = "ok:2026-07-28"
 		}
@@ -152,7 +152,7 @@ func runHTTPInBubble(s HTTPScript) (res vt.Result) {
 		toolDelta := toolRuns - toolBefore
 		mu.Unlock()
 		fmt.Fprintf(&desc, "%s/%s;", m.Method, m.Meta)
-		metaBad := m.Meta == "nocaps" || m.Meta == "badcaps" || m.Meta == "badinfo"
+		metaBad := m.Meta == "nocaps" || m.Meta == "nullcaps" || m.Meta == "nullinfo" || m.Meta == "badcaps" || m.Meta == "badinfo"
 		verBad := m.Meta == "newer"
 		removed := slices.Contains(removedInModern, m.Method)
 		switch {
